@@ -99,6 +99,38 @@ def err_class(e):
     return type(e).__name__
 
 
+def decode_sparse(m):
+    """compressed sparse matrix -> {"shape", "bonds": sorted [donor(column), acceptor(row), energy]} by the textbook
+    definition of the format, or {"shape", "inconsistent": description} when the three arrays do not fit together"""
+    shape = [int(x) for x in m.shape]
+    fmt = getattr(m, "format", None)
+    if fmt not in ("csr", "csc"):
+        m = m.tocoo()
+        return {"shape": shape, "bonds": sorted([int(d), int(a), float(e)] for a, d, e in zip(m.row, m.col, m.data))}
+    indptr = [int(x) for x in np.asarray(m.indptr)]
+    indices = [int(x) for x in np.asarray(m.indices)]
+    data = [float(x) for x in np.asarray(m.data)]
+    major = shape[0] if fmt == "csr" else shape[1]
+    minor = shape[1] if fmt == "csr" else shape[0]
+    bad = None
+    if len(indptr) != major + 1 or indptr[0] != 0:
+        bad = "indptr has %d entries starting at %s for %d %s" % (len(indptr), indptr[:1], major, "rows" if fmt == "csr" else "columns")
+    elif any(b < a for a, b in zip(indptr, indptr[1:])):
+        bad = "indptr decreases"
+    elif indptr[-1] != len(indices) or len(indices) != len(data):
+        bad = "indptr ends at %d but there are %d indices and %d values" % (indptr[-1], len(indices), len(data))
+    elif any(not (0 <= i < minor) for i in indices):
+        bad = "an index is out of range"
+    if bad:
+        return {"shape": shape, "inconsistent": bad, "format": fmt, "indptr": indptr[:200], "n_indices": len(indices)}
+    bonds = []
+    for k in range(major):
+        for j in range(indptr[k], indptr[k + 1]):
+            row, col = (k, indices[j]) if fmt == "csr" else (indices[j], k)
+            bonds.append([int(col), int(row), data[j]])      # [donor, acceptor, energy]
+    return {"shape": shape, "bonds": sorted(bonds)}
+
+
 def run_call(traj, c):
     fn = c["fn"]
     try:
@@ -117,11 +149,10 @@ def run_call(traj, c):
             return {"frames": [np.asarray(x).astype(int).reshape(-1, 3).tolist() for x in r]}
         if fn == "kabsch_sander":
             r = md.kabsch_sander(traj)
-            out = []
-            for m in r:
-                m = m.tocoo()
-                out.append({"shape": list(m.shape),
-                            "bonds": sorted([int(d), int(a), float(e)] for a, d, e in zip(m.row, m.col, m.data))})
+            # ALL matrices are read only after the call has returned, and they are decoded here from their own
+            # (indptr, indices, data) arrays with bounds checks -- scipy's converters run unchecked C++ loops over these
+            # arrays and corrupt the heap when a matrix is internally inconsistent (e.g. row pointers of another frame)
+            out = [decode_sparse(m) for m in r]
             return {"frames": out}
     except Exception as e:  # noqa: BLE001
         return {"err": err_class(e), "msg": str(e)[:200]}
